@@ -67,12 +67,17 @@ func (s *rSet) earliest() (time.Duration, int64) {
 	if s.unlimited() {
 		return rForever, 0
 	}
-	if s.ms() {
-		return s.lb.at + s.dur() - rMsGranularity, 0
-	}
 	stale := s.lb.UnixS - s.lb.SrvS
 	if stale < 0 {
 		stale = 0
+	}
+	if s.ms() {
+		// a period >= MILLISECOND_QUEUE_LENGTH ms ends on the second wheel, counted from the sampled clock as it stood
+		// when the terms were set: a sampler that the machine kept late shortens it like a second-granularity period
+		if s.req.op.E >= MILLISECOND_QUEUE_LENGTH && stale > 0 {
+			return s.lb.at + s.dur() - time.Duration(stale)*time.Second - rMsGranularity, stale
+		}
+		return s.lb.at + s.dur() - rMsGranularity, 0
 	}
 	return s.lb.at + s.dur() - time.Duration(stale)*time.Second, stale
 }
@@ -430,13 +435,18 @@ func rJudge(c *rCase, run *rRun) *rVerdict {
 			v.info.secFired++
 		}
 		lo := q.send.at + T - rMsGranularity
-		stale := int64(0)
-		if !msT {
-			stale = q.send.UnixS - q.send.SrvS
-			if stale < 0 {
-				stale = 0
-			}
+		stale := q.send.UnixS - q.send.SrvS
+		if stale < 0 {
+			stale = 0
+		}
+		switch {
+		case !msT:
 			lo = q.send.at + T - time.Duration(stale)*time.Second
+		case q.op.T >= MILLISECOND_QUEUE_LENGTH:
+			// ends on the second wheel, counted from the sampled clock at the time of queueing (see rSet.earliest)
+			lo -= time.Duration(stale) * time.Second
+		default:
+			stale = 0
 		}
 		if stale > 0 {
 			v.info.staleSets++
@@ -657,7 +667,7 @@ func rJudge(c *rCase, run *rRun) *rVerdict {
 			continue
 		}
 		earliestTO := head.send.at + head.timeoutDur() - rMsGranularity
-		if head.op.TF&rTFms == 0 {
+		if head.op.TF&rTFms == 0 || head.op.T >= MILLISECOND_QUEUE_LENGTH {
 			earliestTO = head.send.at + head.timeoutDur() - time.Duration(head.send.UnixS-head.send.SrvS)*time.Second
 		}
 		if earliestTO <= wakeBy+50*time.Millisecond || end <= wakeBy+50*time.Millisecond {
